@@ -46,6 +46,8 @@ Proof. vm_compute. split; reflexivity. Qed.
    (record in the history - snapshot of the live observers - j's live callback) with j's subscribe steps. *)
 From RX Require Import ConcHist.
 From RXP Require Import HistConc.
+From RX Require Import ConcClose.
+From RXP Require Import CloseConc.
 
 (* ReplaySubject: once the replay is over j has received positions 0..k-1 of the history in push order followed by
    live items; for every producer not in the middle of a push j has received ALL its items, each exactly once, in
@@ -99,6 +101,30 @@ Check C12_history_is_pushed :
   forall p, p <> init_tag ->
   vals (h_hist c) (posns p (h_hist c)) = firstn (hp_k (h_prod c p)) (hp_script (h_prod c p)).
 Print Assumptions C12_history_is_pushed.
+
+(* Subject::error / complete racing a subscriber (Model/ConcClose.v; one step per critical section): with the observers taken out of
+   the map in ONE critical section, under every interleaving a subscriber that has registered by the time the closer is done has
+   been handed the terminal XOR is still registered (and so receives what is pushed afterwards) - it is never lost. *)
+Theorem C12_close_never_loses_a_subscriber :
+  forall acts, let c := clrun acts (clinit true) in
+  cl_joined c = true -> cl_done c = true ->
+  (cl_notified c = true /\ cl_inmap c = false) \/ (cl_notified c = false /\ cl_inmap c = true).
+Proof. exact close_never_loses_a_subscriber. Qed.
+Check C12_close_never_loses_a_subscriber :
+  forall acts, let c := clrun acts (clinit true) in
+  cl_joined c = true -> cl_done c = true ->
+  (cl_notified c = true /\ cl_inmap c = false) \/ (cl_notified c = false /\ cl_inmap c = true).
+Print Assumptions C12_close_never_loses_a_subscriber.
+
+(* The pinned code took the snapshot and cleared the map in TWO sections (defect D23, repaired): the subscriber registering in
+   between was in neither - the interleaving found on the real crate by the check, replayed on the model. *)
+Example C12_known_D23_witness :
+  let c := clrun [ClSnap; ClJoin; ClClear; ClNotify] (clinit false) in
+  cl_joined c = true /\ cl_done c = true /\ cl_notified c = false /\ cl_inmap c = false.
+Proof. exact two_section_close_loses_a_subscriber. Qed.
+Example C12_close_example :
+  let c := clrun [ClJoin; ClSnap; ClNotify] (clinit true) in cl_joined c = true /\ cl_done c = true /\ cl_notified c = true.
+Proof. vm_compute. repeat split. Qed.
 
 (* Non-vacuity: the item 10 is recorded before j's replay and broadcast after it - the window of the repaired defect
    D15 - and is received once; 11 arrives live. *)
